@@ -31,6 +31,7 @@ import traceback
 
 from harness.lib import common, emb
 from harness.corr import C16gen as gen
+from harness.corr import C16drv as drv
 
 from compiler.front_end import glue
 from compiler.util import error
@@ -491,17 +492,20 @@ class Tie:
         self.chk, self.name = chk, name
         self.items = []
 
-    def add(self, line, want, ctx, spec_ok=True):
-        self.items.append((line, want, ctx, spec_ok))
+    def add(self, line, want, ctx, spec_ok=True, norm=None):
+        """`norm`: optional normalisation of the model's answer before the comparison."""
+        self.items.append((line, want, ctx, spec_ok, norm))
 
     def flush(self):
         if not self.items:
             return 0
         answers = ask([i[0] for i in self.items])
         bad = 0
-        for (line, want, ctx, spec_ok), got in zip(self.items, answers):
+        for (line, want, ctx, spec_ok, norm), got in zip(self.items, answers):
             self.chk.count()
-            if got != want:
+            if norm is not None:
+                got = norm(got)
+            if got != want or not spec_ok:
                 bad += 1
                 if bad <= 3:
                     # spec_ok: the real output satisfied the independent spec oracle ⇒ the model differs
@@ -892,6 +896,9 @@ def cli_cases(r, n, pool_cases):
     # raw bytes that are not UTF-8, an unreadable path, a directory as input
     out.append({"kind": "cli/raw-bytes", "raw": {"m.emb": b"struct Foo:\n  0 [+1]  UInt  x  # \xff\xfe\n"}, "main": "m.emb"})
     out.append({"kind": "cli/missing", "raw": {}, "main": "m.emb"})
+    # file-system level faults: main file / imports that exist but cannot be opened as text,
+    # across one or two --import-dir's (quick: a rotating sample, thorough: all of them)
+    out += drv.fs_cli_cases(r, 14 if n < 50 else 10 ** 6)
     picks = r.sample(pool_cases, min(n, len(pool_cases)))
     for c in picks:
         if all(_plain_name(k) for k in c["files"]):
@@ -922,14 +929,20 @@ def run_cli(job):
     env = dict(os.environ, PYTHONPATH=common.REPO)
     py = sys.executable
     steps = []
+    import_dirs = [os.path.join(d, "in")]
+    if "fs" in c:
+        import_dirs = drv.build_fs_case(os.path.join(d, "in"), c)
+        if import_dirs is None:
+            return idx, [], False       # layout not representable on this file system: skip
+    dir_args = [x for i in import_dirs for x in ("--import-dir", i)]
     if tool == "embossc":
-        cmd = [py, os.path.join(common.REPO, "embossc"), "--import-dir", os.path.join(d, "in"),
-               "--output-path", os.path.join(d, "out"), "--color-output", "always" if idx % 2 else "never", c["main"]]
+        cmd = [py, os.path.join(common.REPO, "embossc")] + dir_args + [
+            "--output-path", os.path.join(d, "out"), "--color-output", "always" if idx % 2 else "never", c["main"]]
         steps.append(("embossc", cmd, None))
     else:
         irf = os.path.join(d, "ir.json")
-        steps.append(("emboss_front_end", [py, "-m", "compiler.front_end.emboss_front_end", "--import-dir",
-                                           os.path.join(d, "in"), "--output-file", irf, c["main"]], None))
+        steps.append(("emboss_front_end", [py, "-m", "compiler.front_end.emboss_front_end"] + dir_args + [
+            "--output-file", irf, c["main"]], None))
         steps.append(("emboss_codegen_cpp", [py, "-m", "compiler.back_end.cpp.emboss_codegen_cpp",
                                              "--input-file", irf, "--output-file", os.path.join(d, "out.h")], irf))
     res = []
@@ -983,10 +996,22 @@ def explore_cli(chk, r, n, pool_cases, procs=4):
             if problem:
                 files = {k: v.decode("latin-1") for k, v in c["raw"].items()}
                 chk.violation("input", {"input": files.get(c["main"], ""), "files_latin1": files, "main": c["main"],
-                                        "tool": name, "cmd": cmd, "observed": problem[1],
+                                        "fs_layout": c.get("fs"), "tool": name, "cmd": cmd, "observed": problem[1],
                                         "expected": "exit 0 with output, or exit 1 with error messages, no traceback"},
                               key=problem[0])
         last = res[-1] if res else None
+        if "fs" in c and last and last[1] in (0, 1):
+            stats["fs_cases"] = stats.get("fs_cases", 0) + 1
+            chk.nontrivial("cli-fs:%s:%s" % (c["kind"], last[1]))
+            # spec: compiles iff some import directory, in order, provides a readable file; an unreadable
+            # one is reported as "Unable to read file." (exit 1)
+            complete = last[1] == 0 and len(res) == (1 if tool == "embossc" else 2)
+            if (c["expect"] == 0) != complete or (c["expect"] == 1 and "Unable to read file." not in last[2]):
+                chk.violation("input", {"input": c["fs"]["main_text"] if c["fs"]["role"] == "import" else "", "main": c["main"],
+                                        "fs_layout": c["fs"], "tool": last[0], "cmd": last[3],
+                                        "observed": "exit %s, stderr %s" % (last[1], last[2][-400:]),
+                                        "expected": "exit %d%s" % (c["expect"], " with 'Unable to read file.'" if c["expect"] else "")},
+                              key="cli-fs-fault-misreported:" + c["fs"]["states"][0])
         if last and last[1] == 0 and len(res) == (1 if tool == "embossc" else 2) and not produced:
             chk.violation("input", {"input": "", "main": c["main"], "observed": "exit 0 but no header written",
                                     "expected": "header file"}, key="cli-no-output")
@@ -1081,6 +1106,10 @@ def _run(tier):
         timed("tie_parse_error", tie_parse_error, chk, r, 300 if q else 3000, real_pes)
         timed("tie_process", tie_process, chk, r, 600 if q else 8000)
         timed("tie_queue", tie_queue, chk, r, 150 if q else 2000)
+        timed("tie_findread", drv.tie_findread, chk, r, 250 if q else 3000)
+        timed("tie_path", drv.tie_path, chk, r, 200 if q else 2000)
+        timed("tie_executables", drv.tie_executables, chk, r, 250 if q else 3000)
+        timed("tie_locations", drv.tie_locations, chk, r, cases, 2500 if q else 30000, 400 if q else 5000)
         chk.extra["traces_validated_against_impl"] = sum(v["compared"] for v in chk.extra.get("tie", {}).values())
     timed("cli", explore_cli, chk, common.rng("C16-cli"), 7 if tier == "quick" else 150,
           [c for c in cases if c["kind"].split("/")[0] in ("boundary", "sem", "grammar", "mutate", "imports", "corpus", "soup")])
@@ -1112,6 +1141,28 @@ def replay(path):
     rec = json.load(open(path))
     files = rec.get("files") or {rec.get("main", "m.emb"): rec.get("input", "")}
     main = rec.get("main", "m.emb")
+    if rec.get("fs_layout"):
+        c = {"kind": "replay", "raw": {}, "main": main, "fs": rec["fs_layout"], "expect": None}
+        idx, res, produced = run_cli((0, c, "embossc" if rec.get("tool", "embossc") == "embossc" else "split"))
+        for name, rc, stderr, cmd in res:
+            print("%s: exit %s\n%s" % (name, rc, stderr[-2000:]))
+        return 0
+    if rec.get("layout"):
+        import tempfile
+        lay = rec["layout"]
+        with tempfile.TemporaryDirectory(dir=common.scratch()) as top:
+            dirs = []
+            for j, st in enumerate(lay["states"]):
+                dd = os.path.join(top, "d%d" % j)
+                os.makedirs(dd)
+                drv.build_state(dd, lay["name"], st)
+                dirs.append(dd)
+            from compiler.front_end import emboss_front_end
+            try:
+                print("_find_in_dirs_and_read →", repr(emboss_front_end._find_in_dirs_and_read(dirs)(lay["name"]))[:1500])
+            except Exception as e:  # noqa: BLE001
+                print("_find_in_dirs_and_read RAISED", " | ".join(tb_tail(e)))
+        return 0
     if rec.get("files_latin1") is not None:
         chk = None
         c = {"kind": "replay", "raw": {k: v.encode("latin-1") for k, v in rec["files_latin1"].items()}, "main": main}
